@@ -63,6 +63,7 @@ func init() {
 			{Name: "object store", Kind: "stub", Note: "SimDisk"},
 		},
 		Budget: core.StdBudget(2500, 100*time.Second, 300000, 9*time.Minute),
+		Plans:  c20Plans,
 		Body:   runC20,
 	})
 }
@@ -120,6 +121,33 @@ func drawStates(r *core.Run, n int, liveBias bool) []kmspb.CryptoKeyVersion_Cryp
 	}
 	if mode == 2 && n > 0 {
 		out[livePos] = []kmspb.CryptoKeyVersion_CryptoKeyVersionState{kmspb.CryptoKeyVersion_ENABLED, kmspb.CryptoKeyVersion_DISABLED, kmspb.CryptoKeyVersion_PENDING_GENERATION}[r.Intn(3, "live-state")]
+	}
+	return out
+}
+
+// c20Plans sweeps the single-bit corruptions of an AsymmetricSign response ahead of the random
+// runs: every bit of the signature (quick: one bit per byte), every bit of its CRC32C, each
+// verified flag and a digest corrupted in transit, for a PSS/SHA-256 request on an undisturbed
+// service. The prefix addresses c20's draws in order.
+func c20Plans(tier string) []core.Trace {
+	head := func(fault int) core.Trace {
+		return core.Trace{{L: "paging", N: 5, V: 0}, {L: "gen-delay-s", N: 121, V: 0}, {L: "gen-outcome", N: 6, V: 0}, {L: "deadline-s", N: 400, V: 0},
+			{L: "no-deadline?", N: 100, V: 0}, {L: "op", N: 6, V: 0}, {L: "signer-opts", N: 7, V: 0}, {L: "sign-fault", N: 8, V: fault}, {L: "rpc-fault?", N: 100, V: 0}}
+	}
+	var out []core.Trace
+	for b := 0; b < 256; b++ {
+		for bit := 0; bit < 8; bit++ {
+			if tier != "thorough" && bit != b%8 {
+				continue
+			}
+			out = append(out, append(head(1), core.Choice{L: "sig-byte", N: 256, V: b}, core.Choice{L: "sig-bit", N: 8, V: bit}))
+		}
+	}
+	for bit := 0; bit < 32; bit++ {
+		out = append(out, append(head(2), core.Choice{L: "crc-bit", N: 32, V: bit}))
+	}
+	for f := 3; f <= 5; f++ {
+		out = append(out, head(f))
 	}
 	return out
 }
